@@ -476,7 +476,7 @@ Qed.
 
 Lemma bind_memory_M v slot image res off : MSv v (fst (bind_memory v slot image res off)).
 Proof.
-  unfold bind_memory. destruct (res =? 0); [apply MSv_refl|]. destruct (negb _); [apply MSv_refl|].
+  unfold bind_memory. destruct (res =? 0); [apply MSv_refl|]. destruct (negb _); [apply MSv_refl|]. destruct (off <? 0); [apply MSv_refl|].
   match goal with |- context [match ?t with OK _ => _ | ER _ => _ | PANIC => _ | STUCK => _ end] => destruct t as [o|code| |] end; try apply MSv_refl.
   pose proof (dev_bind_MS (v_m v) image res (a_mem (get_alloc v slot)) o) as H.
   destruct (dev_bind _ _ _ _ _) as (m1 & code). cbn [fst] in H. msfin.
